@@ -114,7 +114,7 @@ def run(check, ctx):
         run_order(check, repo, modname, cls, macs, sink)
     # the native mode loops equal SP 800-38A for all keys and data (cipher uninterpreted, data symbolic)
     from . import c_modes
-    c_modes.mode_tables(check, ctx, ("ctr", "cfb", "ofb", "cbc", "ecb", "cbc-partial", "ecb-partial"))
+    c_modes.mode_tables(check, ctx, ("ctr", "cfb", "ofb", "cbc", "ecb", "cbc-partial", "ecb-partial", "guard-cfb", "guard-cbc", "guard-ofb", "guard-ctr"))
     check.floor("K-sym", 7)
     # the block/stream primitives on the standards' published vectors, key-length dependent structure
     from . import c_kat
